@@ -49,9 +49,20 @@ class C14(Prop):
     budget = case.get("budget", 30)
     model = queued.QModel(spec, budget=budget, bounded=bool(case.get("at_capacity")))
     try:
-      real = queued.RealQueued(case, budget=budget)
+      sink = []
+
+      def setup(chart, rt):
+        if case.get("live"):
+          chart.live_spy = case["live"] in ("spy", "both")
+          chart.live_trace = case["live"] in ("trace", "both")
+          chart.register_live_spy_callback(sink.append)
+          chart.register_live_trace_callback(sink.append)
+      real = queued.RealQueued(case, budget=budget, setup=setup)
       for op in case.get("pre_ops") or ():
-        model.external(op)
+        if op[0] == "recall":
+          model.d.recall()
+        else:
+          model.external(op)
         self.real_call(lambda: real.apply(op), "before start_at: %s" % op)
       model.start(case["start"])
       o = self.real_call(real.start, "start_at")
